@@ -297,7 +297,92 @@ def _g1_configured(ctx):
     ctx.gc(1)
 
 
+def _fingerprint(x, path="", out=None, depth=0):
+    """every array and every plain Python value reachable through dataclass fields / containers of an
+    environment object (opaque simulator handles are skipped)"""
+    import dataclasses
+    out = {} if out is None else out
+    if depth > 6:
+        return out
+    if isinstance(x, (bool, int, float, str, type(None))):
+        out[path] = repr(x)
+    elif isinstance(x, (np.ndarray, jax.Array, np.generic)):
+        a = np.asarray(x)
+        out[path] = (str(a.dtype), a.shape, a.tobytes())
+    elif isinstance(x, dict):
+        for k, v in x.items():
+            _fingerprint(v, f"{path}[{k!r}]", out, depth + 1)
+    elif isinstance(x, (list, tuple)):
+        for i, v in enumerate(x):
+            _fingerprint(v, f"{path}[{i}]", out, depth + 1)
+    elif dataclasses.is_dataclass(x) and not isinstance(x, type):
+        for f in dataclasses.fields(x):
+            try:
+                v = getattr(x, f.name)
+            except Exception:  # noqa: BLE001
+                continue
+            _fingerprint(v, f"{path}.{f.name}", out, depth + 1)
+    return out
+
+
+def _perturbed_kwargs(cls, only_simple):
+    import inspect
+    kw = {}
+    for n, p in inspect.signature(cls.__init__).parameters.items():
+        d = p.default
+        if n == "self" or d is inspect.Parameter.empty:
+            continue
+        if isinstance(d, bool):
+            kw[n] = not d
+        elif n == "reward_weights":
+            kw[n] = {"alive": 0.5, "torques": -0.01}
+        elif only_simple:
+            continue
+        elif isinstance(d, float) and np.isfinite(d) and d > 0:
+            kw[n] = d * 1.25
+        elif isinstance(d, tuple) and len(d) == 2 and all(isinstance(v, float) for v in d) and d[0] < d[1]:
+            kw[n] = (d[0] + 0.25 * (d[1] - d[0]), d[1])
+    return kw
+
+
+def _construction_isolated(ctx):
+    """'none of these depends on Python-side state': an environment constructed with default arguments is the
+    same object (every parameter array, every static setting) whether or not differently configured
+    environments of the same class were constructed earlier in the process."""
+    import lerax.env.mujoco as M
+    classes = [CartPole, MountainCar, Pendulum, Acrobot, ContinuousMountainCar]
+    classes += [getattr(M, n) for n in ("Ant", "HalfCheetah", "Hopper", "Humanoid", "HumanoidStandup", "InvertedPendulum",
+                                        "InvertedDoublePendulum", "Pusher", "Reacher", "Swimmer", "Walker2d")]
+    try:
+        from lerax.env.unitree.g1 import G1Locomotion, G1Standing, G1Standup
+        classes += [G1Locomotion, G1Standing, G1Standup]
+    except Exception as e:  # noqa: BLE001
+        ctx.note(f"G1 not importable: {type(e).__name__}"[:100])
+    for cls in classes:
+        first = _fingerprint(cls())
+        used = None
+        for simple in (False, True):
+            kw = _perturbed_kwargs(cls, simple)
+            try:
+                other = _fingerprint(cls(**kw))
+                used = kw
+                break
+            except Exception:  # noqa: BLE001  (an argument combination the class rejects)
+                continue
+        again = _fingerprint(cls())
+        diff = sorted(k for k in first if first[k] != again.get(k)) + sorted(k for k in again if k not in first)
+        case = {"kind": "construction-isolated", "env": cls.__name__,
+                "non_default_arguments_of_the_instance_built_in_between": {k: repr(v) for k, v in (used or {}).items()}}
+        ctx.case(case, used is not None and other != first)
+        ctx.count("construction-isolated:" + cls.__name__)
+        if diff:
+            ctx.phi_fail("signals_do_not_depend_on_python_side_state",
+                         {**case, "fields_that_differ_between_two_default_instances": diff[:12]},
+                         key="c02:construction-not-isolated")
+
+
 def run(ctx):
+    _construction_isolated(ctx)
     _abstract_signals(ctx)
     _g1_configured(ctx)
     classic = [("CartPole", CartPole), ("MountainCar", MountainCar), ("Pendulum", Pendulum),
